@@ -572,7 +572,9 @@ def engines() -> list[Entry]:
     for sens in ("2d", "3d"):
         add(f"VSharpNet3DEngine/sens{sens}", lambda sens=sens: wrap(VSharpNet3DEngine, VSharpNet3D(
             fwd, bwd, num_steps=2, num_steps_dc_gd=2, initializer_channels=(2, 2, 4), initializer_dilations=(1, 1, 2),
-            unet_num_filters=2, unet_num_pool_layers=2), ndim=3, sens=sens), kind="recon3d", min_zhw=unet3d_ok(2))
+            unet_num_filters=2, unet_num_pool_layers=2), ndim=3, sens=sens), kind="recon3d",
+            # the 2-D sensitivity U-Net (one pooling level) is applied slice by slice and has no padding to a power of two
+            min_zhw=(lambda z, h, w: unet3d_ok(2)(z, h, w) and unet_ok(1)(h, w)) if sens == "2d" else unet3d_ok(2))
     add("LPDNetEngine", lambda: wrap(LPDNetEngine, LPDNet(fwd, bwd, num_iter=2, num_primal=2, num_dual=2,
                                                          primal_model_architecture="UNET", dual_model_architecture="CONV",
                                                          primal_unet_num_filters=2, primal_unet_num_pool_layers=2,
